@@ -13,3 +13,28 @@ check('C02', 'proof',
       'from the current source on every run. The step from su to "most general unifier" (A-MGU) is bounded-checked on the spec, not proved.',
       'Trusted: pyvc VC generator, SMT solvers, spec/terms.smt2, generator protocol (A-PY-GEN), A-MGU (bounded, spec-level), acyclic stores, partial correctness only.',
       'contract-based deductive verification: sidecar contracts + symbolic execution of the real AST to SMT VCs (z3/cvc5), loop invariants, generator calculus', 'DESIGN 5/C02')
+
+_CTL_NOTE = ('Trusted: pyvc VC generator, SMT solvers, Lean kernel, spec/control.smt2 (source semantics semb taken from the property, target '
+             'semantics semc of the intermediate YPCode tree, hand transcription of the Lean lemma statements). Assumed and only '
+             'bounded-checked: A-CPY-TEXT (CPython executes the emitted for/if/break/return/yield text as semc says), A-EXT-ANTLR, A-REFCOUNT. '
+             'Cuts inside if-conditions or under \\+ are outside the statement (precondition wfb). Partial correctness only.')
+check('C05', 'proof',
+      'compile_body (the only place where cut is compiled) is verified path by path - 20 paths, one obligation set per rewrite/emit case - against '
+      'the control algebra: semc(result) == semb(body) for all sub-bodies, where semb(!) = seq(yield,cut) and a YieldBreak statement denotes cut; '
+      'the algebraic lemmas are proved in Lean 4 (pure model and effect-threading model). The step from the YPCode tree to running Python '
+      '(return ends exactly the clause function) is A-CPY-TEXT and is covered by the bounded differential run against a reference interpreter.',
+      _CTL_NOTE, 'contract-based deductive verification of compile_body (symbolic execution of the real AST to SMT VCs over an uninterpreted '
+      'behaviour algebra whose lemmas are proved in Lean) + bounded translation validation of the emitted text', 'DESIGN 5/C05')
+check('C06', 'proof',
+      'Same obligations as C05 for the disjunction / if-then-else / negation cases of compile_body: (A;B) = seq, (C->T;E) = ite via the breakable '
+      'block lemma ite_block with label freshness from the counter contract, (C->T) = ite(C,T,fail), \\+G = ite(G,fail,yield); all rewrites '
+      '((A,B),C; (A;B),C; (A->T;B),C; ...) are proved meaning-preserving for all sub-bodies. Precedence/associativity is a property of the ANTLR '
+      'parser and is bounded-checked against an independent reader of prolog.g4.',
+      _CTL_NOTE, 'contract-based deductive verification of compile_body + Lean lemma layer; bounded precedence/translation validation', 'DESIGN 5/C06')
+check('C01', 'translation_validation',
+      'Deductive part: compile_body (conjunction = nested loops = bind, i.e. left-to-right depth-first enumeration) verified for all bodies as in '
+      'C05/C06. The clause-level functions (head unification order, aliasing of once-occurring head variables, fresh variable declarations, '
+      'clause grouping) and the emitted text are decided by bounded translation validation: generated whole programs x queries on the real '
+      'compiler+engine against an independent reference SLD interpreter (answers, order, multiplicity, aliasing).',
+      _CTL_NOTE + ' STO cases (a head unification that builds a cyclic term) are excluded as unspecified.',
+      'contract-based deductive verification of compile_body; bounded differential translation validation for the clause level', 'DESIGN 5/C01')
